@@ -6,6 +6,8 @@ from mc.core import bits
 from mc.ref import units as R
 
 PID = 'C13'
+# thread bodies (defined with engine E4, mc/checks/c10_sched.py) that exercise this property's code; explored after the parts below
+SCHED_SETS = [('units||units', 'line')]
 LEVEL = 'model_checking'
 ENGINE = 'E2'
 TECHNIQUE = 'explicit-state BFS to closure over the (magnitude bits, display unit) state of real quantity objects, invariants evaluated in every state and on every transition'
